@@ -346,7 +346,8 @@ class StochasticAndFilterDuplicatesSearcher(StochasticSearcher):
         if self._allow_duplicates:
             state["config_for_trial_id"] = self._config_for_trial_id
         if self._restrict_configurations is not None:
-            state["restrict_configurations"] = self._restrict_configurations
+            # Copy: Entries are popped off this list in ``get_config``
+            state["restrict_configurations"] = self._restrict_configurations.copy()
         return state
 
     def _restore_from_state(self, state: Dict[str, Any]):
@@ -357,7 +358,7 @@ class StochasticAndFilterDuplicatesSearcher(StochasticSearcher):
             self._config_for_trial_id = state["config_for_trial_id"]
         k = "restrict_configurations"
         if k in state:
-            self._restrict_configurations = state[k]
+            self._restrict_configurations = state[k].copy()
             # Not part of the state: Empty between calls of ``get_config``
             self._rc_returned_pos = set()
         else:
